@@ -15,7 +15,7 @@ try:
     if b.returncode: print("BUILD-FAILS", b.stderr[:500]); sys.exit(2)
     if os.environ.get("SUITE"):
         t = subprocess.run("go test -vet=off -count=1 ./... 2>&1 | tail -5", shell=True, cwd=d, env=env, capture_output=True, text=True); print(t.stdout)
-    r = subprocess.run([os.environ.get("GENQLCHECK", "/verif/bin/genqlcheck"), "-repo", d, "-property", pid, "-no-evidence"], capture_output=True, text=True)
+    r = subprocess.run([os.environ.get("GENQLCHECK", "/verif/bin/genqlcheck"), "-repo", d, "-property", os.environ.get("PID_OVERRIDE", pid), "-no-evidence"], capture_output=True, text=True)
     lines = [l[:260] for l in r.stdout.splitlines() if l.startswith(("VIOLATED", "UNDECIDED"))]
     print("CAUGHT" if r.returncode else "MISSED"); print("\n".join(lines[:5]))
 finally:
